@@ -82,30 +82,48 @@ GEN_LONG = {'numinst': '--numberinstances', 'o': '--outputdirectory', 'mp': '--m
 
 
 def build_argv(v, outdir):
-    argv = _build_argv(v, outdir)
-    if v.get('seed', 0) % 4 == 3:
-        # the documented long spellings, for a quarter of the cases (derived from the seed so
-        # that perturbed copies of a vector keep the spelling)
-        short = {'-' + k: l for k, l in GEN_LONG.items()}
-        argv = [short.get(t, t) if (i == 0 or not argv[i - 1] in ('-o', '--outputdirectory'))
-                else t for i, t in enumerate(argv)]
+    """argv of a parameter vector.  The *syntax* is a function of v['seed'] (so that perturbed
+    copies of a vector keep it): documented long spellings for a quarter of the cases; the
+    `-opt=value` form argparse accepts for a third; the options in documented, reversed or
+    rotated order."""
+    seed = int(v.get('seed', 0))
+    items = _build_items(v, outdir)
+    order = (seed // 12) % 3
+    if order == 1:
+        items = items[::-1]
+    elif order == 2 and items:
+        k = seed % len(items)
+        items = items[k:] + items[:k]
+    if seed % 4 == 3:
+        items = [[GEN_LONG[it[0][1:]]] + it[1:] for it in items]
+    argv = []
+    eq = (seed // 4) % 3 == 1
+    for it in items:
+        if eq and len(it) == 2:
+            argv.append('%s=%s' % (it[0], it[1]))
+        else:
+            argv += it
     return argv
 
 
-def _build_argv(v, outdir):
-    argv = []
+def _build_items(v, outdir):
+    items = []
     for k in ORDER:
         if k == 'o':
-            argv += ['-o', outdir]
+            items.append(['-o', outdir])
             continue
         if k not in v:
             continue
         if k == 'twopl':
             if v[k]:
-                argv.append('-twopl')
+                items.append(['-twopl'])
         else:
-            argv += ['-' + k, str(v[k])]
-    return argv
+            items.append(['-' + k, str(v[k])])
+    return items
+
+
+def _build_argv(v, outdir):
+    return [t for it in _build_items(v, outdir) for t in it]
 
 
 def fresh_outdir(tag='gen', nested=False):
